@@ -34,8 +34,9 @@ DUMP = '''func dump@(t reflect.Type, depth int) string {
 }
 '''
 def q(pkg, name): return name if pkg == "main" else "%s.%s" % ({"a": "a", "bc": "bc"}[pkg], name)
-TYPEDECL = ("type Rec@ struct {\n\tAlpha int\n\tBeta  string `json:\"beta_tag\"`\n\tInner In@\n\tPtr   *In@\n\tList  []In@\n\tMapped map[string]In@\n\tunexp int\n}\n\n"
-            "type In@ struct {\n\tDeep  int\n\tOther Leaf@\n}\n\ntype Leaf@ struct{ Tip bool }\n\nfunc MkRec@() Rec@ { return Rec@{Alpha: 1, Beta: \"b\", Inner: In@{Deep: 2}, unexp: 3} }\n")
+TYPEDECL = ("type Rec@ struct {\n\tAlpha int\n\tBeta  string `json:\"beta_tag\"`\n\tInner In@\n\tPtr   *In@\n\tList  []In@\n\tMapped map[string]In@\n\tNSlice NList@\n\tNMap NTable@\n\tNArr NBox@\n\tNPtr NRef@\n\tunexp int\n}\n\n"
+            "type NList@ []ElemA@\n\ntype ElemA@ struct{ KeyA string }\n\ntype NTable@ map[string]ElemB@\n\ntype ElemB@ struct{ KeyB int }\n\ntype NBox@ [2]ElemC@\n\ntype ElemC@ struct{ KeyC bool }\n\ntype NRef@ *ElemD@\n\ntype ElemD@ struct{ KeyD float64 }\n\n"
+            "type In@ struct {\n\tDeep  int\n\tOther Leaf@\n}\n\ntype Leaf@ struct{ Tip bool }\n\nfunc MkRec@() Rec@ {\n\treturn Rec@{Alpha: 1, Beta: \"b\", Inner: In@{Deep: 2}, NSlice: NList@{{KeyA: \"ka\"}}, NMap: NTable@{\"k\": {KeyB: 4}}, NArr: NBox@{{KeyC: true}}, NPtr: &ElemD@{KeyD: 1.5}, unexp: 3}\n}\n")
 PATHS = ["direct", "helper1", "helper2", "two-params", "interface-value", "pointer", "slice-element", "slice", "variadic", "struct-field", "method-value",
          "json-marshal", "json-unmarshal", "fmt-plus-v", "template", "generic-helper", "closure", "map-value", "chan"]
 def flow(path, T, mk, hp):
